@@ -11,6 +11,7 @@ import Fdo.Drv.Tunnel
 import Fdo.Drv.Handover
 import Fdo.Drv.Chunk
 import Fdo.Drv.Rv
+import Fdo.Drv.Fsim
 /-
 Line-protocol driver: one operation per input line, one reply per output line.
 Imports model modules only (no proofs, no Mathlib) so that it links as a `lean_exe`.
@@ -32,6 +33,7 @@ def handlers : List (String × (String → List String → Option String)) := [
   ("handover.", Drv.Handover.handle),
   ("chunk.", Drv.Chunk.handle),
   ("rv.", Drv.Rv.handle),
+  ("fsim.", Drv.Fsim.handle),
 ]
 
 def dispatch (line : String) : String :=
